@@ -23,6 +23,7 @@ RULE = ("identities: all-zero, all-one, each of the 128 bits set alone and clear
         "wrong specifier, dropped reply, for configure / store / inquire; selective switch with right and wrong identities. "
         "Signature = (workload, identity class / service, fault class); non-trivial = identity is not all-zero.")
 RULE += (" " + 'Widened later: two-device commissioning on one master, identify remote slave (six fields), every third rig on a buffer-reusing back end, slow slave.')
+RULE += (" " + "Widened later: every fourth rig is an interface without receive timestamps; in the two-device commissioning the master may inquire the first device's node id first and the second device is given a node id too (a fresh one or the one just used).")
 ASSUMPTIONS = ["RESPONSE_TIMEOUT lowered to 0.5 ms and canopen.lss.time virtualised: wall clock never decides (inline delivery)",
                "one unconfigured slave on the bus (what the property states)"]
 REQUIRED = {"scans": 40, "lss_requests_validated": 2000, "service_calls": 300, "fault_cases": 300}
